@@ -99,6 +99,8 @@ pub struct RecObs {
     pub class: u16,
     pub ttl: u32,
     pub proof: u8, // 3 secure, 2 insecure, 1 bogus, 0 indeterminate
+    /// RDATA as hickory holds it (uncompressed encoding, case kept)
+    pub rdata: Vec<u8>,
 }
 
 #[derive(Clone, Debug, PartialEq, Eq)]
@@ -192,6 +194,10 @@ pub fn execute(sc: &Scenario, rt: &tokio::runtime::Runtime) -> Vec<(u32, Obs)> {
                                 class: u16::from(r.dns_class),
                                 ttl: r.ttl,
                                 proof: proof_u8(r.proof),
+                                rdata: {
+                                    use hickory_proto::serialize::binary::BinEncodable;
+                                    r.data.to_bytes().unwrap_or_default()
+                                },
                             })
                             .collect(),
                     ),
@@ -283,7 +289,10 @@ pub fn judge(sc: &Scenario, obs: &[(u32, Obs)]) -> Judged {
                     }
                     any_secure = true;
                     j.secure_groups += 1;
-                    let v = verdicts.iter().find(|v| v.owner == r.owner && v.rtype == r.rtype);
+                    // per record: the RRset (same owner, CLASS and type) this very record is a
+                    // member of; a record of another class, or with RDATA the upstream never
+                    // served, belongs to no RRset the signature could speak for
+                    let v = verdicts.iter().find(|v| v.owner == r.owner && v.class == r.class && v.rtype == r.rtype && v.members.iter().any(|m| m.eq_ignore_ascii_case(&r.rdata)));
                     let scene = if secure_answer_contents.contains(&a_content) {
                         "cached"
                     } else if keys_seen_before {
@@ -294,14 +303,14 @@ pub fn judge(sc: &Scenario, obs: &[(u32, Obs)]) -> Judged {
                     match v {
                         None => j.violations.push((
                             format!("secure-record-not-in-response:{scene}"),
-                            format!("record {} type {} returned Secure but the reference finds no such RRset in the upstream answer", vref::wire::name_to_string(&r.owner), r.rtype),
+                            format!("record {} class {} type {} returned Secure but the upstream answer holds no such record (owner, class, type, RDATA)", vref::wire::name_to_string(&r.owner), r.class, r.rtype),
                         )),
                         Some(v) if v.unknown => j.outcomes.push("obs:reference-undecided".into()),
                         Some(v) if !v.allowed => j.violations.push((
                             format!("secure-disallowed:{}:{scene}", v.why),
                             format!(
-                                "{} type {} returned Secure at now={} although no (RRSIG, DNSKEY) pair passes: closest candidate fails [{}]",
-                                vref::wire::name_to_string(&r.owner), r.rtype, now, v.why
+                                "{} class {} type {} returned Secure at now={} although no (RRSIG, DNSKEY) pair passes for the RRset (owner, class, type) this record belongs to: closest candidate fails [{}]",
+                                vref::wire::name_to_string(&r.owner), r.class, r.rtype, now, v.why
                             ),
                         )),
                         Some(v) => {
